@@ -16,7 +16,10 @@ RULE = ('cases = real join executions on generated table pairs: W1 one tight tab
         'threshold) holding every size pair (a,b)<=N with the least qualifying overlap and shared '
         'tokens last in the global order; W2 every interleaving of x-only/y-only/shared tokens for '
         'all sets <= S at every separating threshold; W3 seeded random hostile tables over all '
-        'tokenizers/ops/flags/n_jobs; F contract-steered witnesses for n<=1000. A case is '
+        'tokenizers/ops/flags/n_jobs; W4 thresholds that are the exact double-precision score of pairs '
+        'of sets up to 64 tokens (rewrite-sensitive points first); HUGE records of 300 to 140 000 '
+        'tokens; F contract-steered witnesses for n<=1000. 8 % of the calls receive tables that were '
+        'used in an earlier call (in place / derived copy). A case is '
         'non-trivial if the model finds at least one required pair in it; distinct = distinct '
         '(workload, measure, threshold, op, table digest).')
 ASSUMPTIONS = ['py_stringmatching tokenizers are trusted (fresh instance = reference tokens)',
